@@ -64,6 +64,10 @@ CHECKS["C11"] = dict(cat="fault_enumeration", engine="K-crash-enumeration", tech
 CHECKS["C17"] = H("C17", "All histories up to the depth bound of CREATE/DELETE/RENAME/SUBSCRIBE/UNSUBSCRIBE/SELECT/APPEND/RESTART over a 10-name alphabet (nesting 3, space, '+', '[ ]', "
    "inbox/s, a SPECIAL-USE name); after every history LIST and LSUB for 14 (reference, pattern) pairs are compared with a namespace model whose wildcard matching is written "
    "from the definition, mailboxes are probed for selectability, renamed subtrees are compared message by message, and a refused command must leave folder tree and database identity rows unchanged.")
+CHECKS["C20"] = H("C20", "All histories up to the depth bound of a POP3 session (STAT, LIST, LIST n, UIDL, RETR, TOP, DELE valid/invalid/repeated, RSET, QUIT, dropped connection) "
+   "through the real POP3ClientProxy interleaved with IMAP append / expunge-first / expunge-last / move / pack on the same INBOX, with bodies containing dot lines, a lone dot and no final newline. "
+   "Numbers, sizes and UIDL values stay fixed, UIDL = IMAP UIDs at login, RETR never delivers another message, announced size = un-stuffed octets delivered, "
+   "replies are correctly stuffed and terminated, only a QUIT removes exactly the marked messages.")
 NOT_YET = {}
 
 def main():
